@@ -41,6 +41,8 @@ def generate(rng, tier):
     cases = [{"ops": W.gen_history_x(rng.fork(1000 + i), rng.range(10, 24))} for i in range(n)]
     m = 40 if tier == "quick" else 1000
     cases += [{"ext": True, "ops": wsext.gen_ext_history(rng.fork(6000 + i), rng.range(20, 36))} for i in range(m)]
+    k = 20 if tier == "quick" else 500
+    cases += [{"w": True, "ops": W.gen_history_w(rng.fork(9500 + i), rng.range(14, 24))} for i in range(k)]
     return cases
 
 
@@ -49,12 +51,16 @@ def drive_one(case, work):
         from props import wsext
 
         return wsext.run_ext_history(case["ops"], work, "c02x")
+    if case.get("w"):
+        return W.run_history_w(case["ops"], work, "c02w")
     return W.run_history_x(case["ops"], work, "c02")
 
 
 def case_term(case, obs):
     if case.get("ext"):
         return None
+    if case.get("w"):
+        return W.world_case_term(obs["ops_filled"], obs["steps"])
     return W.history_case_term_x(obs["ops_filled"], obs["steps"])
 
 
@@ -130,6 +136,53 @@ def _stale_closure(stale, steps):
     return out
 
 
+def oracle_world(case, obs):
+    """two workspaces: every close of either file is validated; per side the same classification as the single-workspace stream"""
+    ops, steps = obs["ops_filled"], obs["steps"]
+    for i, st in enumerate(steps):
+        if str(st["outcome"]).startswith("error"):
+            if ops[i]["op"] == "reopen" and W.world_stale_before(ops, steps, i, ops[i]["ws"]):
+                return [{"key": "stale-node-reused", "what": f"workspace {ops[i]['ws']} cannot be re-opened after a stale-node re-use: {st['outcome'][:160]}"}]
+            return [{"key": "unexpected-exception", "what": f"op {i} {ops[i]}: {st['outcome']}"}]
+    fails, seen = [], set()
+    for side_i, side in enumerate(("a", "b")):
+        sops = [dict(o) for o in ops]
+        ssteps = [{"outcome": st["outcome"], "mem": st[side]["mem"], "file": st[side]["file"]} for st in steps]
+        # ops of the other workspace do not touch this side, except copies INTO it, which behave like creations here
+        detached, stale = set(), set()
+        for j, o in enumerate(sops):
+            if j == 0:
+                continue
+            into = (o["op"] == "copy_x" and (1 - o["ws"]) == side_i) or (o["op"] == "create" and o["ws"] == side_i)
+            if into:
+                had = {tuple(n["key"]) for n in ssteps[j - 1]["file"]["nodes"]}
+                now = {tuple(r["key"]) for r in ssteps[j]["mem"]} - {tuple(r["key"]) for r in ssteps[j - 1]["mem"]}
+                stale |= had & now
+            if o["op"] == "rm_parent" and o["ws"] == side_i and ssteps[j]["outcome"] == "done":
+                rows = {tuple(r["key"]): r for r in ssteps[j - 1]["mem"]}
+                stack = [tuple(o["e"])]
+                while stack:
+                    k = stack.pop()
+                    if k in rows:
+                        detached.add(k)
+                        stack.extend(tuple(c) for c in rows[k]["kids"])
+        stale_cl = _stale_closure(stale, ssteps) if stale else set()
+        for fl in obs["validations"][side_i] + [obs["final_validation"][side_i]]:
+            for f in fl:
+                k = f["key"]
+                nk = _key_of_path(f["node"]) if "node" in f else None
+                if k.startswith("orphan-") and (nk in detached or nk in stale_cl):
+                    key = "orphan-after-remove-via-parent"
+                elif stale_cl and (nk in stale_cl or k in ("child-link-dangling", "parent-count", "child-link-not-hard-link")):
+                    key = "stale-node-reused"
+                else:
+                    key = k
+                if key not in seen:
+                    seen.add(key)
+                    fails.append({"key": key, "what": f"workspace {side_i}: " + f["what"]})
+    return fails
+
+
 def _key_of_path(path):
     import uuid
 
@@ -145,6 +198,8 @@ def oracle(case, obs):
         return [{"key": "driver-crash", "what": obs["crash"][:300]}]
     if case.get("ext"):
         return oracle_ext(case, obs)
+    if case.get("w"):
+        return oracle_world(case, obs)
     ops, steps = obs.get("ops_filled", case["ops"]), obs["steps"]
     for i, st in enumerate(steps):
         if str(st["outcome"]).startswith("error"):
@@ -170,7 +225,9 @@ def oracle(case, obs):
 
 
 def nontrivial(case, obs):
-    return any(o["op"] in ("rm_ws", "rm_parent", "move") for o in case["ops"])
+    if case.get("w"):
+        return any(o["op"] == "copy_x" for o in case["ops"])
+    return any(o["op"] in ("rm_ws", "rm_parent", "move", "rm_children", "copy", "pg") for o in case["ops"])
 
 
 def histogram(cases, obs):
@@ -179,9 +236,16 @@ def histogram(cases, obs):
     h = c01.histogram(cases, obs)
     h["closes_validated"] = sum(len(o.get("validations", [])) + 1 for o in obs if isinstance(o, dict) and "steps" in o)
     keys = {}
+    def flat(x):
+        for y in x:
+            if isinstance(y, dict):
+                yield y
+            elif isinstance(y, list):
+                yield from flat(y)
+
     for o in obs:
-        for fl in (o.get("validations", []) + [o.get("final_validation", [])]) if isinstance(o, dict) else []:
-            for f in (fl if not o.get("ext") else [x for w in fl for x in w]):
+        if isinstance(o, dict):
+            for f in flat([o.get("validations", []), o.get("final_validation", [])]):
                 keys[f["key"]] = keys.get(f["key"], 0) + 1
     h["validator_failures"] = keys
     return h
